@@ -959,3 +959,55 @@ func RemovalUnregisters(w *World, fail func(sig, what string, replay map[string]
 	}
 	return
 }
+
+// CreateRegisters: a Create URR with the periodic trigger is registered under its period whatever the order of its
+// child IEs (all 24 orders of URR ID, Measurement Method, Reporting Triggers, Measurement Period; child order is
+// free in TS 29.244), and one without the trigger is not. Returns the number of evaluated cases.
+func CreateRegisters(w *World, fail func(sig, what string, replay map[string]interface{})) (evals int) {
+	P1, P2 := 3600*time.Second, 7200*time.Second
+	seid := uint64(0x31)
+	id := uint32(7500)
+	wait := func() {
+		if alive, st := w.G.VPerio().VQuiesce(&w.gid); !alive || st == "stuck" {
+			evid.Infra("periodic server not quiescent (%v %s)", alive, st)
+		}
+	}
+	for _, perio := range []bool{true, false} {
+		for _, order := range perms4 {
+			evals++
+			id++
+			w.K.Reset()
+			tr := []byte{0x02, 0x00}
+			if perio {
+				tr[0] |= 0x01
+			}
+			base := []*ie.IE{ie.NewURRID(id), ie.NewMeasurementMethod(0, 1, 0), ie.NewReportingTriggers(tr...), ie.NewMeasurementPeriod(P1)}
+			ch := make([]*ie.IE, len(base))
+			for i, j := range order {
+				ch[i] = base[j]
+			}
+			desc := map[string]interface{}{"op": "CreateURR", "triggers": fmt.Sprintf("% x", tr), "period_s": 3600, "child_order(0=URRID,1=Method,2=Triggers,3=Period)": fmt.Sprint(order)}
+			if err := w.G.CreateURR(seid, ie.NewCreateURR(ch...)); err != nil {
+				fail("perio:create-error", fmt.Sprintf("CreateURR failed: %v", err), desc)
+				continue
+			}
+			wait()
+			q1, q2 := w.Queried(P1), w.Queried(P2)
+			k := [2]uint64{seid, uint64(id)}
+			if q1[k] != perio {
+				fail(fmt.Sprintf("perio:create-registration:perio=%v", perio), fmt.Sprintf("URR created with triggers % x (PERIO=%v, period 3600 s, child order %v): queried on a tick of its period = %v", tr, perio, order, q1[k]), desc)
+			}
+			if q2[k] {
+				fail("perio:create-wrong-period", "URR with period 3600 s queried on a tick of period 7200 s", desc)
+			}
+			for u := range q1 {
+				if u != k && u[0] == seid {
+					fail("perio:create-registers-other-urr", fmt.Sprintf("creating URR %d registered (%#x, %d)", id, u[0], u[1]), desc)
+				}
+			}
+			_, _ = w.G.RemoveURR(seid, ie.NewRemoveURR(ie.NewURRID(id)))
+			wait()
+		}
+	}
+	return
+}
